@@ -57,7 +57,8 @@ POINTS = {
                       "a = (u * (r * t - s * s)"),
 }
 REQUIRED_POINTS = list(POINTS)
-REQUIRED_CLAUSES = ["independent-of-other-instances", "linear==exact", "quadratic==exact", "general==exact",
+REQUIRED_CLAUSES = ["independent-of-other-instances",
+                    "general.temporary-functions-on-reused-object", "linear==exact", "quadratic==exact", "general==exact",
                     "residual-orthogonal", "order-and-form-independent",
                     "general(x2,x,1)==quadratic", "general(x,1)==linear",
                     "corr.range", "corr.collinear==+-1",
@@ -326,6 +327,30 @@ def case_fit(mon, xs, ys, names, pseed):
     mon.check("independent-of-other-instances", again == list(got),
               lambda: dict(case, alone=list(got),
                            with_other_instances=again))
+    # several general fits in a row on the one object, each with function
+    # objects made for that call only (inline lambdas, as in the library's
+    # documentation): each must be, bit for bit, what a fresh object gives
+    # with the long-lived functions
+    seqs = [rng.sample(sorted(BASIS), rng.randrange(1, 4)) for _ in range(2)]
+    seqs.append(list(names))
+    for nm in seqs:
+        mon.evals += 1
+        try:
+            ref = CF(list(xs), list(ys)).general_fitting(
+                *[BASIS[v] for v in nm])
+            ref = ("ok", tuple(ref))
+        except Exception as ex:
+            ref = ("raised", type(ex).__name__)
+        try:
+            tmp = cf.general_fitting(*[(lambda x, f=BASIS[v]: f(x))
+                                       for v in nm])
+            tmp = ("ok", tuple(tmp))
+        except Exception as ex:
+            tmp = ("raised", type(ex).__name__)
+        mon.check("general.temporary-functions-on-reused-object", tmp == ref,
+                  lambda: dict(case, basis_sequence=seqs, basis=nm,
+                               reused_object_temporary_functions=tmp,
+                               fresh_object_named_functions=ref))
     # general fit against the dedicated ones
     if names == ["x2", "x", "1"]:
         try:
